@@ -93,10 +93,10 @@ def run_write(writer, cs):
 READERS = ["srt", "webvtt", "dfxp", "sami", "microdvd", "scc"]
 
 
-def make_reader(kind):
+def make_reader(kind, **init):
     import pycaption
     return {"srt": pycaption.SRTReader, "webvtt": pycaption.WebVTTReader, "dfxp": pycaption.DFXPReader, "sami": pycaption.SAMIReader,
-            "microdvd": pycaption.MicroDVDReader, "scc": pycaption.SCCReader}[kind]()
+            "microdvd": pycaption.MicroDVDReader, "scc": pycaption.SCCReader}[kind](**init)
 
 
 # ---------------------------------------------------------------- random descriptions
@@ -168,7 +168,7 @@ if __name__ == "__main__":
     for j in jobs:
         if j.get("op") == "read":
             try:
-                cs = make_reader(j["kind"]).read(j["doc"], **(j.get("kwargs") or {}))
+                cs = make_reader(j["kind"], **(j.get("init") or {})).read(j["doc"], **(j.get("kwargs") or {}))
                 res.append(["ok", repr(snapshot(cs))])
             except Exception as e:
                 res.append(["err", type(e).__name__])
